@@ -96,7 +96,11 @@ def step (σ : St) (op obs : List String) : St × List Msg :=
     let (a, ok) := σ.app.reload (E := Unit) σ.steps (.ok cfg) none
     let d := expectEq "start.result" (if ok then "ok" else "err") r
     ({ σ with app := a, implInForce := if r = "ok" then some cfg else σ.implInForce, lastFailed := false }, d ++ [.tag "start"])
-  | ["reload", cfg, fault, via], [r] =>
+  | ["reload", cfg, fault, via], [r0] =>
+    -- `ok-leak`: the reload was accepted, and one of the status requests answered while it was applied showed a receiver's
+    -- secret URL in clear text (AM.Config.secret_leaves_masked holds of every rendering, whatever else the process does)
+    let leak := r0 = "ok-leak"
+    let r := if leak then "ok" else r0
     let stage := faultStage fault
     let load : Except Unit String := if stage = "load" then .error () else .ok cfg
     let failAt : Option Nat := if stage = "load" ∨ stage = "none" then none else indexOfStep σ.steps stage
@@ -108,7 +112,9 @@ def step (σ : St) (op obs : List String) : St × List Msg :=
             s!"reload of {cfg} with fault {fault} (cannot be applied: {stage}) via {via} was accepted{if σ.lastFailed then " after having been rejected: " ++ σ.lastFault else ""}"] else [])
     let σ' := if r = "ok" then { σ with app := a, implInForce := some cfg, lastFailed := false, lastFault := fault }
               else { σ with app := a, lastFailed := true, lastFault := s!"{cfg} {fault} via {via}: {r}" }
-    (σ', d ++ [.tag s!"reload:{stage}", .tag s!"via:{via}", .tag s!"fault:{fault}", .tag (if r = "ok" then "reload:accepted" else "reload:rejected")])
+    (σ', d ++ (if leak then [Msg.propfail "secret_leaves_masked" "leak-during-reload"
+                  s!"a status request answered while the reload of {cfg} (via {via}) was applied shows a webhook URL (a secret) in clear text"] else [])
+         ++ [.tag s!"reload:{stage}", .tag s!"via:{via}", .tag s!"fault:{fault}", .tag (if r = "ok" then "reload:accepted" else "reload:rejected")])
   | ["probe", name, sev], [who] =>
     let model := match σ.app.live.running with
       | some c => s!"{c}.{recvOf sev}"
